@@ -179,6 +179,19 @@ func (rb *ResponseBuffer) Write(buf []byte) (int, error) {
 	return rb.Buffer.Write(buf)
 }
 
+// Flush flushes the response if it is being streamed. While the response
+// is being buffered there is nothing to flush yet: passing the call on
+// would commit an empty 200 header on the underlying ResponseWriter
+// before the buffered status and header have been copied to it.
+func (rb *ResponseBuffer) Flush() {
+	if !rb.wroteHeader {
+		rb.WriteHeader(http.StatusOK)
+	}
+	if rb.stream {
+		rb.ResponseWriterWrapper.Flush()
+	}
+}
+
 // Buffered returns whether rb has decided to buffer the response.
 func (rb *ResponseBuffer) Buffered() bool {
 	return !rb.stream
